@@ -192,6 +192,8 @@ pub struct InterruptInfo {
     pub delivered_masks: Vec<u8>,
     #[serde(default)]
     pub key_irq_latched: bool,
+    #[serde(default)]
+    pub onk_level: bool,
 }
 
 #[derive(Debug, Clone, Serialize, Deserialize)]
@@ -1483,6 +1485,8 @@ impl CoreRuntime {
         let (timer_info, intr_info) = self.timer.snapshot_info();
         metadata.timer = timer_info;
         metadata.interrupts = intr_info;
+        // The ON key line is host-driven state that SSR reads reflect; keep it across a restore.
+        metadata.interrupts.onk_level = self.onk_level;
         if metadata.interrupts.irq_bit_watch.is_none() {
             metadata.interrupts.irq_bit_watch = self
                 .timer
@@ -1510,6 +1514,7 @@ impl CoreRuntime {
             &self.metadata.interrupts,
             self.metadata.cycle_count,
         );
+        self.onk_level = self.metadata.interrupts.onk_level;
         if let Some(watch) = self.metadata.interrupts.irq_bit_watch.as_ref() {
             self.timer.irq_bit_watch = watch.as_object().cloned();
         }
